@@ -228,7 +228,10 @@ RewardOracle(g, orc, p, rs, prune) ==
     LET Gc  == CondGame(g, p, rs, prune)
         Dom == IF prune THEN ReachDom(Gc) ELSE States(g)
         stop == StoppingOn(Gc, Dom)      \* pure graph fixed point: decidable at any size
-    IN  IF ~orc.exact \/ ~stop
+        \* the exact reward clauses (C02, C05.Exact, C14) are claimed for STOPPING INPUT games
+        \* only (final states absorbing, no rewarded end component anywhere): that is the domain
+        \* the properties state, and an implementation may treat other inputs differently
+    IN  IF ~orc.exact \/ ~stop \/ ~orc.stopping
         THEN [ok |-> FALSE, stop |-> stop, Gc |-> Gc, Dom |-> Dom]
         ELSE LET rv == RewardValue(Gc, Dom)
                  hb == RewardStepBound(Gc, Dom)
